@@ -5,6 +5,9 @@ file's path relative to the input directory") is quantified over things the
 simulator owns - absolute location, working directory, spelling of the input
 path, source of the prefix.  Each world runs under several placements and all
 pages must agree on title block and module directive.
+
+Replay spec: {"files", "proj_name", "tree": {rel: text|null}, "single": rel|null, "prefix": str|null, "rst": {...},
+ "placements": [{"loc", "cwd", "input", "prefix_src": 0 cli|1 -s file|2 user config, "listing_key", "decoy_first", "stale_out"}]}
 """
 import os
 import posixpath
